@@ -665,15 +665,30 @@ def r7_engine_assumptions(cx):
     # stored handlers: task/proc handlers are invoked synchronously by exactly their emit functions,
     # every other handler table is only iterated inside a spawned async block
     pa = Prov(m, "alias")
+
+    def sync_bodies(f):
+        """f and the closures that run synchronously inside it (`iter().for_each(|h| h(e))` is the same as a `for` loop;
+        closures handed to a spawn or to a registration are not: Summaries keeps those edges out)"""
+        out, work = [], [f.q]
+        while work:
+            q = work.pop()
+            if q in m.fns and m.fns[q] not in out:
+                out.append(m.fns[q])
+                work += [x for x in eng.sm.edges.get(q, ()) if x.startswith(q + "::{closure")]
+        return out
+
+    def calls_handler(f):
+        return any(c.kind == "virtual" and (c.callee.get("decl") or "").endswith("Fn::call") for g in sync_bodies(f) for c in g.calls())
+
     for kind, emit_q in T.HANDLER_EMITTERS.items():
         f = m.fns.get(emit_q)
-        has_call = f is not None and any(c.kind == "virtual" and (c.callee.get("decl") or "").endswith("Fn::call") for c in f.calls())
+        has_call = f is not None and calls_handler(f)
         cx.ob("C02.R7", "handler:%s" % kind, has_call and len(eng.sm.handlers.get(kind, [])) == 1,
               "the single `on_%s` handler is invoked synchronously from `%s`" % (kind, short_name(emit_q)), f.loc() if f else None)
     sync_other = []
     for f in m.fns.values():
         if f.q.startswith("acts::event::emitter::Emitter::") and "::{closure" not in f.q and f.q not in T.HANDLER_EMITTERS.values():
-            if any(c.kind == "virtual" and (c.callee.get("decl") or "").endswith("Fn::call") for c in f.calls()):
+            if calls_handler(f):
                 sync_other.append(f.short)
     cx.ob("C02.R7", "handler:others-async", not sync_other,
           "message/start/complete/error/tick handlers are never called synchronously by the emitter (found: %s)" % (sync_other or "none"), None)
